@@ -121,6 +121,11 @@ pub fn run(sc: &Value) -> Value {
             std::fs::create_dir_all(dest.join("p")).unwrap();
             std::fs::write(dest.join("p/f"), b"precious").unwrap();
         }
+        "only-dotfiles" => {
+            std::fs::create_dir_all(dest.join(".config")).unwrap();
+            std::fs::write(dest.join(".profile"), b"old").unwrap();
+            std::fs::write(dest.join(".config/app"), b"old").unwrap();
+        }
         "only-symlinks" => {
             std::fs::create_dir_all(&dest).unwrap();
             std::os::unix::fs::symlink("../out/sentinel", dest.join("existing")).unwrap();
